@@ -139,19 +139,39 @@ Print Assumptions C11_only_requested_options.
    (IPv6 servers filtered out, $self4 = receiving address) unless a policy of
    the selected chain names it -- then the innermost such policy decides
    (a value, or null = not sent).
-   Partial: the interface MTU / router (options 26, 3) and the netmask /
-   broadcast of the matched `addresses` subnet are modelled (build_default,
-   subnet_defaults) and compared with the code on every run, but not stated
-   as theorems. *)
-Theorem C11_defaults_unless_overridden_partial : forall g req init k,
+   The interface-derived defaults are the next theorem. *)
+Theorem C11_defaults_unless_overridden : forall g req init k,
   requested req k = true -> k = 6 \/ k = 119 \/ k = 114 ->
   tget k (rs_opts (snd (policy_walk g req init))) =
   chain_value k (match selected req (conf_policies g) with Some ch => ch | None => [] end)
     (top_level_default g req k).
 Proof. exact defaults_unless_overridden. Qed.
-Check C11_defaults_unless_overridden_partial : forall g req init k,
+Check C11_defaults_unless_overridden : forall g req init k,
   requested req k = true -> k = 6 \/ k = 119 \/ k = 114 ->
   tget k (rs_opts (snd (policy_walk g req init))) =
   chain_value k (match selected req (conf_policies g) with Some ch => ch | None => [] end)
     (top_level_default g req k).
-Print Assumptions C11_defaults_unless_overridden_partial.
+Print Assumptions C11_defaults_unless_overridden.
+
+(* "... interface MTU and router, netmask and broadcast of the matched subnet
+   apply unless overridden": when the request arrives on an `addresses` prefix
+   (net/len), a requested option 26 / 3 / 1 / 28 that was not in the table
+   before the walk ends as the interface MTU (as u16) / the interface router /
+   the netmask of len / the broadcast address of net/len, unless a policy of
+   the selected dhcp-policies chain names it (value or null).  For 26 and 3 the
+   statement also covers requests received outside every `addresses` prefix
+   (no default then). *)
+Theorem C11_interface_defaults_unless_overridden : forall g req init k,
+  wf_cfg g = true -> requested req k = true -> tget k init = None ->
+  k = 26 \/ k = 3 \/ ((k = 1 \/ k = 28) /\ receiving_prefix (r_serverip req) (g_addresses g) <> None) ->
+  tget k (rs_opts (snd (policy_walk g req init))) =
+  chain_value k (match selected req (conf_policies g) with Some ch => ch | None => [] end)
+    (interface_default g req k).
+Proof. exact interface_defaults. Qed.
+Check C11_interface_defaults_unless_overridden : forall g req init k,
+  wf_cfg g = true -> requested req k = true -> tget k init = None ->
+  k = 26 \/ k = 3 \/ ((k = 1 \/ k = 28) /\ receiving_prefix (r_serverip req) (g_addresses g) <> None) ->
+  tget k (rs_opts (snd (policy_walk g req init))) =
+  chain_value k (match selected req (conf_policies g) with Some ch => ch | None => [] end)
+    (interface_default g req k).
+Print Assumptions C11_interface_defaults_unless_overridden.
